@@ -117,6 +117,10 @@ pub struct Program {
     pub on_sym: Vec<Op>,
     /// lattice (cyclic) program: values are bit-sets, ops are monotone
     pub lattice: bool,
+    /// identity fields of tracked structs hash only their low bit (different identity values
+    /// collide: salsa has to tell them apart by equality and bump the id generation in place)
+    #[serde(default)]
+    pub coarse_hash: bool,
 }
 
 #[derive(Clone, Debug, PartialEq, Eq, Hash, Serialize, Deserialize)]
@@ -177,6 +181,8 @@ pub struct Profile {
     pub intern_shape: bool,
     /// percent of Specify ops generated as SpecifyAny
     pub specify_any_pct: u32,
+    /// percent of programs whose struct identity fields use the coarse (colliding) hash
+    pub coarse_hash_pct: u32,
 }
 
 impl Profile {
@@ -204,6 +210,7 @@ impl Profile {
             lattice: false,
             intern_shape: false,
             specify_any_pct: 0,
+            coarse_hash_pct: 0,
         }
     }
 }
@@ -323,7 +330,8 @@ pub fn gen_program(t: &mut Tape, pf: &Profile) -> Program {
     let on_ent_spec = g.ops(n2, base, false, true, 0);
     let n3 = 1 + g.t.pick(3);
     let on_sym = g.ops(n3, base, false, true, 0);
-    Program { slots, cells, nodes, base: base as u8, on_ent, on_ent_spec, on_sym, lattice: false }
+    let coarse_hash = pf.coarse_hash_pct > 0 && g.t.pick(100) < pf.coarse_hash_pct;
+    Program { slots, cells, nodes, base: base as u8, on_ent, on_ent_spec, on_sym, lattice: false, coarse_hash }
 }
 
 pub fn gen_history(t: &mut Tape, prog: &Program, pf: &Profile) -> Vec<Step> {
@@ -433,6 +441,7 @@ pub fn gen_lattice_program(t: &mut Tape, pf: &Profile) -> Program {
         on_ent_spec: vec![],
         on_sym: vec![],
         lattice: true,
+        coarse_hash: false,
     }
 }
 
@@ -549,5 +558,6 @@ pub fn gen_intern_program(t: &mut Tape, pf: &Profile) -> Program {
         on_ent_spec: vec![],
         on_sym: vec![Op::SymField { h: 0 }],
         lattice: false,
+        coarse_hash: false,
     }
 }
